@@ -1206,7 +1206,10 @@ class EffectDomain(DefaultDomain):
         if isinstance(fa, ast.Attribute) and fa.attr in self.PURE_STR_METHODS and not call.keywords and not any(isinstance(n_, ast.Call) for n_ in ast.walk(fa.value)):
             folded = []
             undecided = False
-            for r in interp.eval_list([fa.value] + list(call.args), st, fr):
+            evaluated = interp.eval_list([fa.value] + list(call.args), st, fr)
+            if fa.attr == "join":
+                evaluated = interp._forced_list(evaluated, fr)   # sep.join(<generator expression ...>) consumes it
+            for r in evaluated:
                 if r.kind == "exc":
                     folded.append(r)
                     continue
